@@ -110,6 +110,8 @@ TRIGGERS = [
     ("rel-END-days", "rel", "END", False), ("rel-END-sub", "rel", "END", True),
     ("rel-default-days", "rel", None, False), ("absolute", "abs", None, None),
     ("none", "none", None, None),
+    # a zero-length trigger (PT0S): the alarm fires at the anchor itself
+    ("rel-START-zero", "rel", "START", "zero"), ("rel-END-zero", "rel", "END", "zero"),
 ]
 
 
@@ -118,7 +120,8 @@ def mk_alarm(it, m, label, kind, related, subday, dur, repeat, idx=0):
     vddd = ClassVal(m.cls("prop.vDDDTypes"))
     vdur = ClassVal(m.cls("prop.vDuration"))
     if kind == "rel":
-        v = it.call(vddd, [TD(term={f"T{idx}": 1}, mag="subday" if subday else "days")], {})
+        v = it.call(vddd, [TD(term={f"T{idx}": 1}, mag="zero" if subday == "zero" else
+                              ("subday" if subday else "days"))], {})
         if related is not None:
             v.attrs["params"].items["RELATED"] = related
         alarm.items["TRIGGER"] = v
@@ -176,6 +179,7 @@ def _anchor_component(ctx):
                         TRIGGERS, (None, "days", "sub"), repeats):
                     if kind == "none" and (dur or rep):
                         continue
+                    it.steps = 0
                     comp = it.call(ClassVal(ci), [], {})
                     comp.items["DTSTART"] = it.call(vddd, [DT(skind, None, {"START": 1},
                                                               "Europe/Berlin" if skind == "zoned" else None)], {})
@@ -232,6 +236,35 @@ def _anchor_manual(ctx):
     m = ctx.model
     it = Interp(m)
     al_cls = m.cls("alarms.Alarms")
+    # a component without alarms first, the alarm added afterwards: the component's own
+    # start and end are known, so nothing may be reported missing
+    vddd = ClassVal(m.cls("prop.vDDDTypes"))
+    for cq, endp in (("cal.Event", "DTEND"), ("cal.Todo", "DUE")):
+        for (label, kind, related, subday), how in itertools.product(TRIGGERS, ("ctor", "add_component")):
+            if kind == "none":
+                continue
+            it.steps = 0
+            comp = it.call(ClassVal(m.cls(cq)), [], {})
+            comp.items["DTSTART"] = it.call(vddd, [DT("utc", None, {"START": 1})], {})
+            comp.items[endp] = it.call(vddd, [DT("utc", None, {"END": 1})], {})
+            key = f"{m.cls(cq).name} without alarms via {how}, then add_alarm trigger={label}"
+            try:
+                if how == "ctor":
+                    alarms = it.call(ClassVal(al_cls), [comp], {})
+                else:
+                    alarms = it.call(ClassVal(al_cls), [], {})
+                    it.call(it.getattr(alarms, "add_component"), [comp], {})
+                it.call(it.getattr(alarms, "add_alarm"), [mk_alarm(it, m, label, kind, related, subday,
+                                                                  "sub", 1)], {})
+                got = sorted(t for t, _ in read_times(it, alarms))
+            except AbsRaise as e:
+                got = "!" + e.cls_name
+            except Unsupported as e:
+                raise AnalysisError(f"manual alarm path leaves the abstract interface [{key}]: {e}")
+            exp = sorted(expected_terms(kind, related, "sub", 1, 0, {"START": 1}, {"END": 1}))
+            ctx.check(got == exp, "C14/ANCHOR", key,
+                      f"times {got}, expected {exp}: the component's start and end are known when the "
+                      f"alarm is added later", al_cls.loc(), detail=str(exp))
     for (label, kind, related, subday), has_start, has_end in itertools.product(
             TRIGGERS, (False, True), (False, True)):
         alarms = it.call(ClassVal(al_cls), [], {})
